@@ -44,7 +44,21 @@ func main() {
 	only := flag.String("only", "", "restrict output to obligations whose rule has this prefix (replay)")
 	list := flag.Bool("list", false, "print every obligation")
 	mutant := flag.String("mutant", "", "internal: evaluate the property on the mutant with this name (self-test)")
+	dump := flag.String("dump", "", "debug: print the SSA of functions whose short name contains this string")
 	flag.Parse()
+	if *dump != "" {
+		p, err := Load(primaryCfg)
+		if err != nil {
+			fmt.Println(err)
+			os.Exit(2)
+		}
+		for _, f := range p.Funcs {
+			if strings.Contains(fname(f), *dump) {
+				f.WriteTo(os.Stdout)
+			}
+		}
+		os.Exit(0)
+	}
 	if t := os.Getenv("VERIF_TIER"); t != "" && *tier == "" {
 		*tier = t
 	}
